@@ -116,6 +116,8 @@ def run(pid, tier, seed):
             per = 24 if q else 60
             groups.append((c8, gen_core.gen_seg(seed, 16 if q else 300, per, common.slot_tags(c8)), "seg", None))
             grp["seg"] = per + 1
+            groups.append((c8, gen_core.gen_seg_long(seed, 2 if q else 12, 11, common.slot_tags(c8)), "seglong", None))
+            grp["seglong"] = 12
         specs = {}
         if pid == "C15":
             # a node that is removed from the topology while a request is in flight on it (the node stays silent)
